@@ -398,7 +398,7 @@ def norm_req_real(method, path, body, it: Interner):
     return (method, path.rstrip('/'), tuple(sorted((it.name(k), it.val(v)) for k, v in (body or {}).items())))
 
 
-def run_model(case, real: Real, driver, fix=(1, 1)):
+def run_model(case, real: Real, driver, fix=(1, 1, 1)):
     """Replays the trace on the model. Returns (Failure|None, tags)."""
     it = Interner()
     mode = case['mode']
@@ -518,7 +518,7 @@ def run_model(case, real: Real, driver, fix=(1, 1)):
                         note_names(pj)
                     flags = init.get('dev', {}).get('flags', [])
                     mmode = 'poll' if mode == 'poll' else 'listen'
-                    ask(f'begin {mmode} {fix[0]} {fix[1]} {int("webhooks" in flags)} {int("reverse" in flags)} '
+                    ask(f'begin {mmode} {fix[0]} {fix[1]} {fix[2]} {int("webhooks" in flags)} {int("reverse" in flags)} '
                         f'{it.attrs(dev_clean(init.get("dev", {})))} {it.attrs(init.get("wh", {}))} '
                         f'{it.attrs(init.get("rv", {}))} {it.portlist(resp, with_value=(mode != "poll"))}')
                     if mode == 'push':
